@@ -29,8 +29,11 @@ Definition exec (K : Kernel) (fl : flavor) (P : Params) (op : string) (args : li
   | None =>
   match exec_km K fl P op args with
   | Some v => v
+  | None =>
+  match exec_sig op args with
+  | Some v => v
   | None => VBad
-  end end end end end end.
+  end end end end end end end.
 
 (* a correspondence case: kernel, flavor, parameters, operation, arguments, what the implementation returned *)
 Definition case := (Kernel * flavor * Params * string * list val * val)%type.
